@@ -485,8 +485,10 @@ def setup_one(stream, every, handler_kind="blocking"):
     return None
 
 
-def two_engines_case(fed):
-    """two independent engines alive in one process (own tasks, phenomena, actions, handlers), only one is fed: the
+def two_engines_case(fed, rebuilt=False):
+    """(rebuilt: the application builds a SECOND BoboEngine around the same four task objects - to change the time
+    settings - and drives that one: the tasks are wired to each other once more, which must change nothing)
+    two independent engines alive in one process (own tasks, phenomena, actions, handlers), only one is fed: the
     other must stay idle, and the fed one behaves as if alone.  -> failure text | None"""
     from bobocep.cep.action.action import BoboAction
     from bobocep.cep.action.handler import BoboActionHandlerBlocking
@@ -536,6 +538,11 @@ def two_engines_case(fed):
         engine.decider.subscribe(spy)
         engine.producer.subscribe(spy)
         engine.forwarder.subscribe(spy)
+        if rebuilt:
+            from bobocep.cep.engine.engine import BoboEngine
+            engine = BoboEngine(receiver=engine.receiver, decider=engine.decider, producer=engine.producer,
+                                forwarder=engine.forwarder, times_receiver=0, times_decider=0, times_producer=0,
+                                times_forwarder=0, early_stop=True)
         return engine, spy, act
     engines = {t: build(t) for t in ("north", "south")}
     other = "south" if fed == "north" else "north"
@@ -597,6 +604,12 @@ def setup_half(ctx, res):
         if bad:
             res.failures.append(dict(signature="engines-in-one-process-not-independent", what=bad, detail=None,
                                      case=dict(two_engines=True, fed=fed)))
+    bad = two_engines_case("north", rebuilt=True)
+    res.note_case(("engine-rebuilt-around-the-same-tasks",), True)
+    if bad:
+        res.failures.append(dict(signature="tasks-wired-twice-deliver-twice", detail=None,
+                                 what="a second BoboEngine built around the same task objects: " + bad,
+                                 case=dict(two_engines=True, fed="north", rebuilt=True)))
     n = 0
     for stream in SETUP_STREAMS:
         for every in (1, 2, 3):
@@ -651,7 +664,7 @@ def replay(obj):
         print("oracle        :", bad or "every completed run got its complex event, execution and action event")
         return 1 if bad else 0
     if case.get("two_engines"):
-        bad = two_engines_case(case["fed"])
+        bad = two_engines_case(case["fed"], rebuilt=bool(case.get("rebuilt")))
         print("oracle        :", bad or "the engine that was not fed stayed idle; the fed one: one complex event, execution, action event per run")
         return 1 if bad else 0
     if case.get("setup"):
